@@ -57,9 +57,21 @@ def main():
       assert s.count(old) == 1, (name, s.count(old))
       open(p, 'w').write(s.replace(old, new))
       t = time.time()
-      r = subprocess.run(['./check', 'C08'], cwd='/verif', env={**os.environ, 'VERIF_REPO': copy},
-                         capture_output=True, text=True, timeout=1800)
-      out = [l for l in r.stdout.split('\n') if l.startswith(('OK', 'VIOLATION'))]
+      for _attempt in range(3):   # a concurrent build in /verif/coq can make the private-tree rsync fail: retry
+        r = subprocess.run(['./check', 'C08'], cwd='/verif', env={**os.environ, 'VERIF_REPO': copy},
+                           capture_output=True, text=True, timeout=1800)
+        out = [l for l in r.stdout.split('\n') if l.startswith(('OK', 'VIOLATION'))]
+        m0 = re.search(r'replay=(\S+)', out[-1]) if out else None
+        crashed = False
+        if m0 and os.path.exists(m0.group(1)):
+          d0 = json.load(open(m0.group(1)))
+          crashed = any(b.get('kind') == 'harness-crash' for b in d0.get('broken', []))
+          if crashed:
+            print('   (infrastructure failure, retrying): ' + str(d0['broken'][0].get('traceback', ''))[-200:].replace('\n', ' '), flush=True)
+            os.remove(m0.group(1))
+        if out and not crashed:
+          break
+        time.sleep(5)
       line = out[-1] if out else '(no verdict) ' + r.stderr[-300:]
       detail = ''
       m = re.search(r'replay=(\S+)', line)
